@@ -396,6 +396,67 @@ theorem ds_ops_le_budget (anch : Bool) (candCap budget : Nat) (recs : List (Nat 
     (dsWalk true anch candCap budget recs spent any).1 ≤ budget :=
   (dsWalk_spec anch candCap budget recs spent any).2 hb
 
+/-! ### hashed denial of existence: NSEC3 hashes are charged to the request tree -/
+
+/-- **A denial proof never takes the tree past `MaxNSEC3Hashes`**, whatever the
+queried name (any number of labels below any closest encloser), the ring, the
+kind of proof (name error / NODATA), and whatever the request tree's memo
+already holds: every hash `nsec3RingEvaluator.hash` computes is one debit of
+the tree's NSEC3 counter, and the debit that would pass the cap is refused. -/
+theorem nsec3_hashes_le_budget (p : Policy) (hm : p.mode = .enforce) (mc : Nat) (nodata : Bool)
+    (ring : List String) (base : String) (labels : List String) (sh : Shared) (memo : N3Memo)
+    (hle : sh.ctr.get .nsec3Hash ≤ p.caps.get .nsec3Hash) :
+    (n3Verify p mc nodata ring base labels sh memo).1.ctr.get .nsec3Hash ≤ p.caps.get .nsec3Hash := by
+  have hb := (n3Run_bounds p hm mc (n3Plan nodata ring (n3Suffixes base labels)).1 [] sh memo).2 hle
+  unfold n3Verify
+  generalize n3Run p mc (n3Plan nodata ring (n3Suffixes base labels)).1 [] sh memo = r at hb
+  obtain ⟨s1, m1, r1⟩ := r
+  cases r1 <;> exact hb
+
+/-- **The exact price of a proof.** On a context without a memo, a proof whose
+hash requests are `names` (pairwise distinct) reaches a verdict iff the tree can
+still pay for all of them, and then the counter has grown by exactly that many;
+otherwise it ends in the NSEC3 work-limit error with the counter at the cap.
+In particular no verdict — secure or not — is reached for free. -/
+theorem hashed_denial_exact_cost (p : Policy) (hm : p.mode = .enforce) (mc : Nat) (names : List String)
+    (sh : Shared) (hnd : names.Nodup) (hle : sh.ctr.get .nsec3Hash ≤ p.caps.get .nsec3Hash) :
+    (sh.ctr.get .nsec3Hash + names.length ≤ p.caps.get .nsec3Hash →
+      (n3Run p mc names [] sh none).2.2 = .ok ∧
+      (n3Run p mc names [] sh none).1.ctr.get .nsec3Hash = sh.ctr.get .nsec3Hash + names.length) ∧
+    (p.caps.get .nsec3Hash < sh.ctr.get .nsec3Hash + names.length →
+      (n3Run p mc names [] sh none).2.2 = .limit .nsec3Hash (p.caps.get .nsec3Hash) ∧
+      (n3Run p mc names [] sh none).1.ctr.get .nsec3Hash = p.caps.get .nsec3Hash) :=
+  n3Run_none_spec p hm mc names [] sh hnd (by simp) hle
+
+/-- **An authenticated hashed denial has been paid for by the tree that asked**
+(the class of C12-20: the required validation charged to something else than
+the request's ledger, so that the ledger shows no hash at all): a proof that
+reaches a verdict — `secure` or `bogus` — on a context whose memo does not hold
+the queried name has raised the tree's NSEC3 counter. -/
+theorem hashed_denial_is_paid_for (p : Policy) (hm : p.mode = .enforce) (mc : Nat) (nodata : Bool)
+    (ring : List String) (base : String) (labels : List String) (sh : Shared) (memo : N3Memo)
+    (hfresh : ∀ m, memo = some m → n3Full base labels ∉ m)
+    (h : ∀ k lim, (n3Verify p mc nodata ring base labels sh memo).2.2 ≠ .work k lim) :
+    sh.ctr.get .nsec3Hash < (n3Verify p mc nodata ring base labels sh memo).1.ctr.get .nsec3Hash := by
+  obtain ⟨rest, hs⟩ := n3Suffixes_head base labels
+  obtain ⟨t, hp⟩ := n3Plan_head nodata ring (n3Full base labels) rest
+  have hpaid := n3Run_head_paid p hm mc (n3Full base labels) t sh memo hfresh
+  unfold n3Verify at h ⊢
+  rw [hs, hp] at h ⊢
+  generalize n3Run p mc (n3Full base labels :: t) [] sh memo = r at hpaid h
+  obtain ⟨s1, m1, r1⟩ := r
+  cases r1 with
+  | ok => exact hpaid rfl
+  | limit k lim => exact absurd rfl (h k lim)
+
+/-- the memo ceiling the driver's model uses is the code's, and every hashed-denial verifier the
+resolver is required to run (name error, NODATA, insecure delegation, wildcard expansion: five call
+sites in resolver.go) is handed `r.dnssecWork(ctx)`, the adapter that debits the request's ledger. -/
+theorem required_denials_use_request_work_shape :
+    SdnsVerif.Gen.C12.max_nsec3_memo_entries = 64 ∧
+    5 ≤ SdnsVerif.Gen.C12.nsec3_verifier_calls ∧
+    (∀ a ∈ SdnsVerif.Gen.C12.nsec3_verifier_work_args, a = "r.dnssecWork(ctx)") := by decide
+
 /-! ### budget failures are request-local; shape of the over-budget reply -/
 
 /-- **Budget failures are never cacheable for other clients.** A failure is
@@ -680,5 +741,24 @@ example : (chaseRun {} [.hop, .hop, .hop, .deadline, .hop, .hop]).started = 3 :=
 -- the over-budget reply for an EDNS client whose tree ran out of signature checks
 example : servfailReply pol2 { first := Kind.signature.idx + 1 } true none = { rcode := 2, ede := some 5 } := by decide
 example : cacheableFailure { ctxErr := false, bestEffort := false, enforced := false, localMark := false } = true := by decide
+
+
+-- hashed denial: a.b.n3.test. below the apex costs four hashes (a.b, b, apex, *.apex); an allowance of
+-- four reaches `secure` with the counter at four, an allowance of three ends in the work-limit error
+def polN3 (c : Nat) : Policy := { mode := .enforce, caps := KTab.ofList 0 [128, 32, 4, 8, 32, 32, c, 32] }
+def ringN3 : List String := ["n3.test.", "host.n3.test.", "other.n3.test."]
+
+example : (n3Plan false ringN3 (n3Suffixes "n3.test." ["a", "b"])).1 =
+    ["a.b.n3.test.", "b.n3.test.", "n3.test.", "*.n3.test."] := by decide
+example : (n3Verify (polN3 4) 64 false ringN3 "n3.test." ["a", "b"] {} none).2.2 = .secure ∧
+    (n3Verify (polN3 4) 64 false ringN3 "n3.test." ["a", "b"] {} none).1.ctr.get .nsec3Hash = 4 := by decide
+example : (n3Verify (polN3 3) 64 false ringN3 "n3.test." ["a", "b"] {} none).2.2 = .work .nsec3Hash 3 := by decide
+-- a second proof under the same memo pays only for the names it has not hashed yet (c.b: one new name)
+example :
+    let r := n3Verify (polN3 9) 64 false ringN3 "n3.test." ["a", "b"] {} (some [])
+    (n3Verify (polN3 9) 64 false ringN3 "n3.test." ["c", "b"] r.1 r.2.1).1.ctr.get .nsec3Hash = 5 := by decide
+-- NODATA at an existing name: one hash
+example : (n3Verify (polN3 4) 64 true ringN3 "host.n3.test." [] {} none).2.2 = .secure ∧
+    (n3Verify (polN3 4) 64 true ringN3 "host.n3.test." [] {} none).1.ctr.get .nsec3Hash = 1 := by decide
 
 end SdnsVerif.Props.C12
